@@ -503,6 +503,9 @@ def _is_text_sniffer(g: FuncInfo) -> bool:
     rets = [n for n in ast.walk(g.node) if isinstance(n, ast.Return) and n.value is not None]
     if not rets:
         return False
+    # a function that asks the expression parser is not sniffing characters: "is an expression" then means "the language accepts it"
+    if any(isinstance(n, ast.Call) and call_name(n) in ('parse_expression', 'validate_ast') for n in ast.walk(g.node)):
+        return False
     for r in rets:
         for n in ast.walk(r.value):
             if isinstance(n, ast.Call):
